@@ -69,21 +69,29 @@ static void singleRequest(Case &c, int k, const int *outc, const int *order, std
 
 // config consolidation: each endpoint answers a configuration request with its own values
 struct CfgVals { bool has[5]; uint64_t v[5]; }; // signing: 0 maxLevel 1 period 2 maxRequests | extending: 2 maxRequests 3 calFirst 4 calLast
-static int g_cbCount = 0; static CfgVals g_last; static bool g_ext = false;
+static int g_cbCount = 0; static CfgVals g_last; static bool g_ext = false; static std::vector<CfgVals> g_calls; // every value handed to the application
 static int haConfCb(KSI_CTX *, KSI_Config *cf) { g_cbCount++; KSI_Integer *i = nullptr; memset(&g_last, 0, sizeof g_last);
     if (!g_ext) { KSI_Config_getMaxLevel(cf, &i); if (i) { g_last.has[0] = true; g_last.v[0] = KSI_Integer_getUInt64(i); } i = nullptr; KSI_Config_getAggrPeriod(cf, &i); if (i) { g_last.has[1] = true; g_last.v[1] = KSI_Integer_getUInt64(i); } }
     i = nullptr; KSI_Config_getMaxRequests(cf, &i); if (i) { g_last.has[2] = true; g_last.v[2] = KSI_Integer_getUInt64(i); }
-    if (g_ext) { i = nullptr; KSI_Config_getCalendarFirstTime(cf, &i); if (i) { g_last.has[3] = true; g_last.v[3] = KSI_Integer_getUInt64(i); } i = nullptr; KSI_Config_getCalendarLastTime(cf, &i); if (i) { g_last.has[4] = true; g_last.v[4] = KSI_Integer_getUInt64(i); } } return KSI_OK; }
+    if (g_ext) { i = nullptr; KSI_Config_getCalendarFirstTime(cf, &i); if (i) { g_last.has[3] = true; g_last.v[3] = KSI_Integer_getUInt64(i); } i = nullptr; KSI_Config_getCalendarLastTime(cf, &i); if (i) { g_last.has[4] = true; g_last.v[4] = KSI_Integer_getUInt64(i); } } g_calls.push_back(g_last); return KSI_OK; }
 static bool inRange(int f, uint64_t v) { switch (f) { case 0: return v >= 1 && v <= 20; case 1: return v >= 100 && v <= 20000; case 2: return v >= 1 && v <= 16000; default: return v >= 1136073600ULL; } }
 static CfgVals refFold(const std::vector<CfgVals> &vs, bool ext) { CfgVals r; memset(&r, 0, sizeof r); for (auto &x : vs) for (int f = 0; f < 5; f++) { if ((ext && f < 2) || (!ext && f > 2)) continue; if (!x.has[f] || !inRange(f, x.v[f])) continue; bool smaller = f == 1 || f == 3; if (!r.has[f] || (smaller ? x.v[f] < r.v[f] : x.v[f] > r.v[f])) { r.has[f] = true; r.v[f] = x.v[f]; } } return r; }
-static CfgVals runConfig(Case &c, bool ext, int k, const std::vector<CfgVals> &vals, const int *order) {
-    resetSim(); g_cbCount = 0; g_ext = ext; memset(&g_last, 0, sizeof g_last); Ctx ctx; KSI_AsyncService *has = nullptr; if (ext) KSI_ExtendingHighAvailabilityService_new(ctx, &has); else KSI_SigningHighAvailabilityService_new(ctx, &has);
+static CfgVals runConfig(Case &c, bool ext, int k, const std::vector<CfgVals> &vals, const int *order, bool unsolicited = false) {
+    resetSim(); g_cbCount = 0; g_ext = ext; memset(&g_last, 0, sizeof g_last); g_calls.clear(); Ctx ctx; KSI_AsyncService *has = nullptr; if (ext) KSI_ExtendingHighAvailabilityService_new(ctx, &has); else KSI_SigningHighAvailabilityService_new(ctx, &has);
     for (int e = 0; e < k; e++) KSI_AsyncService_addEndpoint(has, ("ksi+tcp://" + hostOf(e) + ":" + std::to_string(3000 + e)).c_str(), kLogin.c_str(), kKey.c_str()); KSI_AsyncService_setOption(has, KSI_ASYNC_OPT_PUSH_CONF_CALLBACK, (void *)haConfCb);
-    KSI_AsyncHandle *h = nullptr; KSI_Config *cf = nullptr; KSI_Config_new(ctx, &cf); if (ext) { KSI_ExtendReq *rq = nullptr; KSI_ExtendReq_new(ctx, &rq); KSI_ExtendReq_setConfig(rq, cf); KSI_AsyncExtendHandle_new(ctx, rq, &h); } else { KSI_AggregationReq *rq = nullptr; KSI_AggregationReq_new(ctx, &rq); KSI_AggregationReq_setConfig(rq, cf); KSI_AsyncAggregationHandle_new(ctx, rq, &h); }
+    KSI_AsyncHandle *h = nullptr; KSI_Config *cf = nullptr;
+    if (unsolicited) { // no configuration request is pending: an ordinary request opens the connections, the endpoints push their configurations on their own
+        if (ext) { KSI_ExtendReq *rq = nullptr; KSI_ExtendReq_new(ctx, &rq); KSI_Integer *t0 = nullptr; KSI_Integer_new(ctx, 1500000000, &t0); KSI_ExtendReq_setAggregationTime(rq, t0); KSI_AsyncExtendHandle_new(ctx, rq, &h); }
+        else { KSI_AggregationReq *rq = nullptr; KSI_AggregationReq_new(ctx, &rq); KSI_DataHash *dh = nullptr; Bytes hb = hashOf(5); KSI_DataHash_fromImprint(ctx, hb.data(), hb.size(), &dh); KSI_AggregationReq_setRequestHash(rq, dh); KSI_AsyncAggregationHandle_new(ctx, rq, &h); } }
+    else { KSI_Config_new(ctx, &cf); } if (unsolicited) {} else if (ext) { KSI_ExtendReq *rq = nullptr; KSI_ExtendReq_new(ctx, &rq); KSI_ExtendReq_setConfig(rq, cf); KSI_AsyncExtendHandle_new(ctx, rq, &h); } else { KSI_AggregationReq *rq = nullptr; KSI_AggregationReq_new(ctx, &rq); KSI_AggregationReq_setConfig(rq, cf); KSI_AsyncAggregationHandle_new(ctx, rq, &h); }
     if (KSI_AsyncService_addRequest(has, h) != KSI_OK) { KSI_AsyncHandle_free(h); VF_FAIL(c, "C15:config-request-refused", "HA service refused a configuration request"); KSI_AsyncService_free(has); return g_last; }
     auto runs = [&](int n) { for (int i = 0; i < n; i++) { KSI_AsyncHandle *out = nullptr; size_t w = 0; KSI_AsyncService_run(has, &out, &w); KSI_AsyncHandle_free(out); } }; runs(3);
     for (int oi = 0; oi < k; oi++) { int e = order[oi]; sim::Conn *cn = nullptr; for (auto x : sim::net().conns) if (endpointOfConn(x) == e) cn = x; if (!cn) continue; const CfgVals &v = vals[e]; Header hd; Tlv p = ext ? extConfPayload(v.has[2], v.v[2], {}, v.has[3], v.v[3], v.has[4], v.v[4]) : aggrConfPayload(v.has[0], v.v[0], false, 1, v.has[1], v.v[1], v.has[2], v.v[2], {});
-        Bytes b = sealV2(ext ? 0x321 : 0x221, hd, {p}, keyB(), 1); cn->toClient.insert(cn->toClient.end(), b.begin(), b.end()); runs(3); }
+        Bytes b = sealV2(ext ? 0x321 : 0x221, hd, {p}, keyB(), 1); size_t before = g_calls.size(); cn->toClient.insert(cn->toClient.end(), b.begin(), b.end()); runs(3);
+        // whatever reaches the application after this arrival must be the consolidation of everything that has arrived so far
+        std::vector<CfgVals> prefix; for (int q = 0; q <= oi; q++) prefix.push_back(vals[order[q]]); CfgVals wantNow = refFold(prefix, ext);
+        for (size_t ci = before; ci < g_calls.size() && !c.fail; ci++) for (int f = 0; f < 5; f++) { if ((ext && f < 2) || (!ext && f > 2)) continue; uint64_t gv = g_calls[ci].has[f] ? g_calls[ci].v[f] : 0, wv = wantNow.has[f] ? wantNow.v[f] : 0;
+            if (gv != wv) { VF_FAIL(c, std::string("C15:config:callback-value-not-consolidated") + (unsolicited ? ":unsolicited" : ""), "after " + num(oi + 1) + " configuration(s) arrived the application was handed field " + num(f) + " = " + std::to_string(gv) + ", the consolidation of the arrived in-range values is " + std::to_string(wv)); break; } } }
     runs(2); KSI_AsyncService_free(has); return g_last;
 }
 
@@ -111,7 +119,7 @@ void harness_case(Dec &d, Case &c) {
     for (int e = 0; e < 3; e++) for (int f = 0; f < 5; f++) { unsigned m = d.pick(5); vals[e].has[f] = m != 0; bool bad = m == 4; if (bad && vals[e].has[f]) anyOut = true; unsigned q = d.pick(4);
         switch (f) { case 0: vals[e].v[f] = bad ? badLevel[q % 3] : okLevel[q]; break; case 1: vals[e].v[f] = bad ? badPeriod[q % 3] : okPeriod[q]; break; case 2: vals[e].v[f] = bad ? badReq[q % 2] : okReq[q]; break; default: vals[e].v[f] = bad ? badT[q % 3] : okT[q]; break; } }
     std::vector<CfgVals> used(vals.begin(), vals.begin() + k); CfgVals want = refFold(used, ext); int perms[6][3] = {{0, 1, 2}, {0, 2, 1}, {1, 0, 2}, {1, 2, 0}, {2, 0, 1}, {2, 1, 0}}; static const char *fname[] = {"max-level", "aggregation-period", "max-requests", "calendar-first-time", "calendar-last-time"};
-    for (int pi = 0; pi < 6 && !c.fail; pi++) { int order[3]; int n = 0; for (int i = 0; i < 3; i++) if (perms[pi][i] < k) order[n++] = perms[pi][i]; if (k == 2 && pi >= 2 && pi != 2) continue; CfgVals got = runConfig(c, ext, k, vals, order); if (c.fail) break;
+    for (int pi = 0; pi < 6 && !c.fail; pi++) { int order[3]; int n = 0; for (int i = 0; i < 3; i++) if (perms[pi][i] < k) order[n++] = perms[pi][i]; if (k == 2 && pi >= 2 && pi != 2) continue; bool unsol = (pi & 1) != 0; CfgVals got = runConfig(c, ext, k, vals, order, unsol); if (unsol) c.cls("config:unsolicited-push"); if (c.fail) break; if (unsol && g_calls.empty()) { c.cls("config:unsolicited-push-not-delivered"); continue; }
         for (int f = 0; f < 5; f++) { if ((ext && f < 2) || (!ext && f > 2)) continue; uint64_t gv = got.has[f] ? got.v[f] : 0, wv = want.has[f] ? want.v[f] : 0; if (gv != wv) { VF_FAIL(c, std::string("C15:config:") + fname[f], std::string(ext ? "extending" : "signing") + " HA consolidated " + fname[f] + " = " + std::to_string(gv) + ", reference fold over in-range values = " + std::to_string(wv) + " (arrival order " + num(order[0]) + num(order[1]) + (k == 3 ? num(order[2]) : "") + ")"); break; } } }
     c.cls(ext ? "config:extending" : "config:signing"); if (anyOut) c.cls("config:with-out-of-range-value"); c.nontrivial = anyOut; c.desc = std::string("config ") + (ext ? "ext" : "aggr") + " k=" + num(k); for (int e = 0; e < k; e++) for (int f = 0; f < 5; f++) if (vals[e].has[f]) c.desc += " " + num(e) + ":" + num(f) + "=" + std::to_string(vals[e].v[f]);
 }
